@@ -3,6 +3,7 @@
 package load
 
 import (
+	_ "embed"
 	"fmt"
 	"go/token"
 	"go/types"
@@ -38,6 +39,11 @@ type Program struct {
 	TestFns  []*ssa.Function         // functions declared in _test.go files (only when Tests)
 	cg       *callgraph.Graph
 	LoadSecs float64
+
+	// analysis normal form (norm.go)
+	Norm     *ssa.VerifNorm
+	Absorbed map[*ssa.Function]bool // glue functions absorbed into their callers (not in RepoFns, not in the call graph)
+	Glue     []string               // names of the functions not in the baseline table, with what happened to each
 }
 
 // Load loads ./... of repoDir. It fails (error) on any type error, on a package
@@ -93,8 +99,12 @@ func Load(repoDir, goarch string, tests bool) (*Program, error) {
 
 	prog, _ := ssautil.AllPackages(pkgs, ssa.InstantiateGenerics)
 	prog.Build()
+	absorbed, norm, glueNotes, err := normalise(prog)
+	if err != nil {
+		return nil, err
+	}
 
-	p := &Program{RepoDir: repoDir, GOARCH: goarch, Tests: tests, Fset: fset, Roots: pkgs, Prog: prog, SSAPkgs: map[string]*ssa.Package{}}
+	p := &Program{Norm: norm, Absorbed: absorbed, Glue: glueNotes,RepoDir: repoDir, GOARCH: goarch, Tests: tests, Fset: fset, Roots: pkgs, Prog: prog, SSAPkgs: map[string]*ssa.Package{}}
 	for _, sp := range prog.AllPackages() {
 		if sp == nil || sp.Pkg == nil {
 			continue
@@ -149,6 +159,9 @@ func Load(repoDir, goarch string, tests bool) (*Program, error) {
 		if fn.Parent() != nil {
 			continue // reached through parent
 		}
+		if absorbed[fn] {
+			continue // glue absorbed into its callers
+		}
 		addFn(fn)
 	}
 	sort.Slice(p.RepoFns, func(i, j int) bool { return p.RepoFns[i].String() < p.RepoFns[j].String() })
@@ -161,6 +174,15 @@ func Load(repoDir, goarch string, tests bool) (*Program, error) {
 func (p *Program) CallGraph() *callgraph.Graph {
 	if p.cg == nil {
 		p.cg = vta.CallGraph(ssautil.AllFunctions(p.Prog), cha.CallGraph(p.Prog))
+		for fn, n := range p.cg.Nodes {
+			top := fn
+			for top != nil && top.Parent() != nil {
+				top = top.Parent()
+			}
+			if p.Absorbed[top] {
+				p.cg.DeleteNode(n)
+			}
+		}
 	}
 	return p.cg
 }
